@@ -4,6 +4,7 @@
 package eng
 
 import (
+	"go/constant"
 	"fmt"
 	"go/ast"
 	"go/token"
@@ -382,4 +383,17 @@ func (p *Prog) StaticCallers(fn *ssa.Function) []CallSite {
 		}
 	}
 	return p.callers[fn]
+}
+
+// ConstInt64 returns the value of the package-level integer constant shortPkg.name.
+func (p *Prog) ConstInt64(shortPkg, name string) (int64, bool) {
+	pk := p.Package(shortPkg)
+	if pk == nil {
+		return 0, false
+	}
+	c, ok := pk.Types.Scope().Lookup(name).(*types.Const)
+	if !ok {
+		return 0, false
+	}
+	return constant.Int64Val(constant.ToInt(c.Val()))
 }
